@@ -25,6 +25,7 @@ import (
 	"sort"
 	"strconv"
 	"strings"
+	"sync/atomic"
 	"time"
 
 	"verif/evid"
@@ -56,6 +57,33 @@ func mutSpec(depth int) *mc.Spec {
 	return &mc.Spec{Name: "mutable", New: newMut, MaxDepth: depth, Serial: true}
 }
 
+// Watchdog: a damaged treap can contain a cycle, and then a read never returns. The worker counts
+// its steps; if the count stands still for 30 s the current history is reported as a hang.
+var (
+	progress   int64
+	curSystem  string
+	curHistory func() ([]string, []int64)
+)
+
+func watchdog(job string, seed int64) {
+	last := int64(-1)
+	for {
+		time.Sleep(30 * time.Second)
+		cur := atomic.LoadInt64(&progress)
+		if cur != last {
+			last = cur
+			continue
+		}
+		h, pos := curHistory()
+		out := workerOut{Job: job, Exhaustive: false, Cap: "worker hung in an operation of the code under test"}
+		out.Violations = append(out.Violations, evid.Violation{Signature: "C19|" + curSystem + "|hang", Count: 1,
+			What:     fmt.Sprintf("an operation or read after history %v did not return within 30 s (the tree has probably been linked into a cycle)", h),
+			Artefact: artefact{System: curSystem, Seed: seed, History: append([]string{}, h...), Pos: append([]int64{}, pos...)}})
+		par.Emit(out)
+		os.Exit(0)
+	}
+}
+
 func runWorker(r *evid.Run, job string) {
 	// The immutable DFS allocates one 1 KiB iterator per node and keeps almost nothing alive: with
 	// the default GC pacing a collection is in progress most of the time (write barriers on every
@@ -72,9 +100,13 @@ func runWorker(r *evid.Run, job string) {
 	seed, _ := strconv.ParseInt(f[1], 10, 64)
 	depth, _ := strconv.Atoi(f[2])
 	out := workerOut{Job: job, Exhaustive: true}
+	curSystem = map[string]string{"mut": "mutable", "imm": "immutable"}[f[0]]
+	curHistory = func() ([]string, []int64) { return nil, nil }
+	go watchdog(job, seed)
 	switch f[0] {
 	case "mut":
 		initStream(seed, 4096)
+		curHistory = func() ([]string, []int64) { return lastMutHist, nil }
 		soft := map[string]*evid.Violation{}
 		var softOrder []string
 		softFail = func(sig, what string, hist []string) {
@@ -100,6 +132,7 @@ func runWorker(r *evid.Run, job string) {
 		prefix := strings.Split(f[3], ",")
 		run := newImmRun(seed, depth)
 		run.stop = r.Expired
+		curHistory = func() ([]string, []int64) { return run.ops, run.opPos }
 		diverged := false
 		for _, op := range prefix {
 			// every shard checks its own prefix too (cheap; duplicates collapse by signature)
